@@ -20,6 +20,15 @@ func init() {
 // mkVia builds a library value equal to v through one of several routes so that
 // equal values come with different mantissa lengths, precisions, modes, accuracies.
 func mkVia(r *hx.RNG, v oracle.Val) (*decimal.Decimal, string) {
+	z, how := mkVia0(r, v)
+	if v.Form == oracle.Finite && r.Chance(6) { // whatever the route: a precision from the top of the range afterwards (the value stays)
+		z.SetPrec(hugePrec(r))
+		how += "+huge-prec"
+	}
+	return z, how
+}
+
+func mkVia0(r *hx.RNG, v oracle.Val) (*decimal.Decimal, string) {
 	if v.Form != oracle.Finite {
 		return hx.MkR(r, v, uint(r.Range(0, 60)), r.Mode()), "special"
 	}
